@@ -1,6 +1,7 @@
 (* C14 - Character-escape decodings (XML refs, chr(), unescape(), UTF-16) are exact.  Statements pinned from the proof files by harness/mkprop.py; the shape hypotheses (xml_m_ok, chr_m_ok, utf16_m_ok) are discharged from the generated regexes in Proofs/Shapes1.v (end-to-end theorems at the bottom when present). *)
 From MD Require Import Lib.Base Model.Node Model.Codec.PyInt Model.Codec.Utf Model.Codec.Percent Model.Dec.XmlChr Model.Dec.ReLib Model.Dec.EscDec.
 From MD Require Import Proofs.UtfProofs Proofs.PercentProofs Proofs.PyIntProofs Proofs.XmlChrProofs Proofs.EscDecProofs.
+From MD Require Import Regex.Syntax Generated.Regexes Proofs.Shapes1.
 
 (* a run of references with decimal 0-255 / two-digit hex items decodes to exactly those bytes (any count) *)
 Theorem C14_xml_codec : forall items : list bytes, xml_items_ok items -> unescape_xml (concat (map xml_reference items)) = Ok (map xml_item_num items) /\ wf_bytes (map xml_item_num items).
@@ -67,6 +68,36 @@ Print Assumptions C14_utf16_runs.
 Theorem C14_utf16_outcomes : forall (data : bytes) (ms : list Backtrack.mtch), wf_bytes data -> Forall (fun m : Backtrack.mtch => span_ok data m 0) ms -> (exists nodes : list node, find_utf16_post data ms = Ok nodes) \/ find_utf16_post data ms = Raise unicode_decode_error.
 Proof. exact find_utf16_post_outcomes. Qed.
 Print Assumptions C14_utf16_outcomes.
+
+(* END TO END (regex-dependent steps by vm_compute of explore on the regex term regenerated from the source): every word XML_ESCAPE_RE can match is a run of >= 5 well-formed references *)
+Theorem C14_xml_regex_shape : forall w : list N, Lang RE_xml_XML_ESCAPE_RE w -> xml_shape w.
+Proof. exact xml_lang_shape. Qed.
+Print Assumptions C14_xml_regex_shape.
+
+(* find_xml_hex on EVERY input: never raises; every node decodes exactly its references *)
+Theorem C14_xml_total : forall data : bytes, find_xml_hex data = Hang \/ (exists nodes : list node, find_xml_hex data = Ok nodes /\ Forall (xml_node_ok data) nodes).
+Proof. exact find_xml_hex_total. Qed.
+Print Assumptions C14_xml_total.
+
+Theorem C14_chr_group_shape : forall (body : re) (w : list N), In body (BacktrackProofs.group_re RE_chr_CHR_RE 1) -> Lang body w -> chr_shape w.
+Proof. exact chr_group1_shape. Qed.
+Print Assumptions C14_chr_group_shape.
+
+Theorem C14_chr_total : forall data : bytes, find_chr data = Hang \/ (exists nodes : list node, find_chr data = Ok nodes /\ Forall (chr_node_ok data) nodes).
+Proof. exact find_chr_total. Qed.
+Print Assumptions C14_chr_total.
+
+Theorem C14_unescape_total : forall data : bytes, find_unescape data = Hang \/ (exists nodes : list node, find_unescape data = Ok nodes /\ Forall (unescape_node_ok data) nodes).
+Proof. exact find_unescape_total. Qed.
+Print Assumptions C14_unescape_total.
+
+Theorem C14_utf16_regex_shape : forall w : list N, Lang RE_codec_UTF16_RE w -> utf16_shape w.
+Proof. exact utf16_lang_shape. Qed.
+Print Assumptions C14_utf16_regex_shape.
+
+Theorem C14_utf16_total : forall data : bytes, find_utf16 data = Hang \/ (exists nodes : list node, find_utf16 data = Ok nodes /\ Forall (utf16_node_ok data) nodes).
+Proof. exact find_utf16_total. Qed.
+Print Assumptions C14_utf16_total.
 
 Example C14_example :
   find_xml_hex (L"zz &#72;&#x69;&#33;&#10;&#x41; zz") = Ok [Node [] [72; 105; 33; 10; 65]%N (L"unescape.xml") 3 30 []]
